@@ -1,0 +1,29 @@
+//go:build verif
+
+package schedulemanager
+
+// Accessors for the verification harness in /verif (build tag `verif` only): thin forwarding functions,
+// no logic. They expose what the unexported scheduleManager already holds.
+
+import (
+	"gopkg.in/robfig/cron.v2"
+)
+
+// VerifCronEntries returns the cron library's own list of registered entries (cron.Cron.Entries()).
+// ok is false when m is not the package's scheduleManager.
+func VerifCronEntries(m ScheduleManager) ([]cron.Entry, bool) {
+	sm, ok := m.(*scheduleManager)
+	if !ok || sm == nil {
+		return nil, false
+	}
+	return sm.cron.Entries(), true
+}
+
+// VerifEntries returns the manager's Entries map itself (crontab -> cron entry id + set of ids).
+func VerifEntries(m ScheduleManager) (map[string]CronEntry, bool) {
+	sm, ok := m.(*scheduleManager)
+	if !ok || sm == nil {
+		return nil, false
+	}
+	return sm.Entries, true
+}
